@@ -60,7 +60,7 @@ def check_case(case, ctx):
         key = case["T_symbolic"]
         Ts = getattr(cs, sym).sym(key)
         par_over, parameters, values = {"T": Ts}, {key: Ts}, {key: sp["pars"]["T"]}
-    params = [(k, 1) for k in (parameters or {})]
+    params = [(k, v.numel()) for k, v in (parameters or {}).items()]
     r = guarded(ctx, "compile", cas.compile_net, sp, sym, compact, True, (), overrides, par_over, parameters)
     if crashed(r):
         return
